@@ -1674,7 +1674,10 @@ determine_gap_columns_to_add(ESL_MSA *msa, int *maxgap, int *maxmis, int clen, i
     if(neitherA != NULL) free(neitherA);
     ESL_FAIL(eslEINCONCEIVABLE, errbuf, "consensus length (%d) is not the expected length (%d).", cpos, clen);
   }
-  
+  /* if there are no consensus positions at all, prv_cpos is still 0 but apos 0 isn't a
+   * consensus position: all alen columns are gap/missing, so flush left from the start of msa */
+  if(cpos == 0) prv_cpos = -1;
+
   if(maxgap[cpos] > 0 && maxmis[cpos] == 0) { /* most common case */
     ngapA[prv_cpos + 1 + ngap] = maxgap[cpos] - ngap; /* flush left gaps (no missing) */
   }
